@@ -1,7 +1,7 @@
 (* Property C09 -- dot-segment normalisation.  Statements only. *)
 From Coq Require Import List NArith Bool Arith.
 Import ListNotations.
-Require Import V.Regex V.Parse V.PathSpec V.Splice V.Setters V.Iter V.PathQ V.ParseProofs V.PathMut V.PathMutProofs V.C09Proofs V.C12Proofs V.NormProofs.
+Require Import V.Regex V.Parse V.PathSpec V.Splice V.Setters V.Iter V.PathQ V.ParseProofs V.PathMut V.PathMutProofs V.C09Proofs V.C12Proofs V.NormProofs V.Rfc V.ResolveProofs4 V.NormalizedProofs.
 Local Open Scope nat_scope.
 
 (* the normalized-segment iterator of the model (a stack of ranges, as in the Rust code) computes
@@ -56,6 +56,23 @@ Print Assumptions C09_normalize_text.
 Theorem C09_normalize_keeps_absoluteness : forall start0 fa v, is_abs (normalize1 start0 fa v) = is_abs v.
 Proof. exact normalize1_abs. Qed.
 Print Assumptions C09_normalize_keeps_absoluteness.
+
+(* THE COPYING normalized() (PathImpl::normalized: a fold of symbolic pushes into a fresh buffer, each through a fresh
+   whole-buffer handle, then the closing empty segment): on every path free of '?' and '#' that has no empty segment
+   before its last one and no segment on which first_segment_contains_colon holds, the index-level model returns --
+   no panic -- exactly RFC 3986 5.2.4 (Rfc.rds: the walk `norm`, a trailing "/" after a final dot segment, the
+   absoluteness of the input).  Both exclusions are needed for TEXTUAL equality: witnesses below (the first two are
+   the recorded findings K_G11 and K_shield_left; the third differs from 5.2.4 only by a "./" shield). *)
+Theorem C09_normalized_partial : forall p, none_of [QM; HASH] p -> no_empty_but_last p -> colon_free p ->
+  path_normalized p = Some (rds p).
+Proof. exact path_normalized_is_rds. Qed.
+Print Assumptions C09_normalized_partial.
+Theorem C09_normalized_witnesses :
+  (path_normalized [47;47;97]%N = Some [47;97]%N /\ rds [47;47;97]%N = [47;47;97]%N) /\                       (* //a -> /a *)
+  (path_normalized [46;47;98;58;99;47;46;46]%N = Some [46;47]%N /\ rds [46;47;98;58;99;47;46;46]%N = []) /\   (* ./b:c/.. -> ./ *)
+  (path_normalized [47;98;58;99]%N = Some [47;46;47;98;58;99]%N /\ rds [47;98;58;99]%N = [47;98;58;99]%N).    (* /b:c -> /./b:c *)
+Proof. vm_compute. repeat split; reflexivity. Qed.
+Print Assumptions C09_normalized_witnesses.
 
 Example C09_example : norm true (segs [47;97;47;46;47;98;47;46;46;47;46;46;47;46;46;47;99]%N) = [[99%N]].   (* /a/./b/../../../c *)
 Proof. vm_compute. reflexivity. Qed.
